@@ -225,8 +225,14 @@ def _layer_norm_batch_rule(
         raise NotImplementedError(
             "Batching over LayerNorm parameters is not supported."
         )
+    if x_bdim is None:
+        return LayerNormPlugin._PRIM.bind(x, scale, bias, epsilon=epsilon), None
+    # the normalised (trailing) dimensions are those of one example: keep the batch
+    # dimension in front of them
+    if x_bdim != 0:
+        x = jnp.moveaxis(x, x_bdim, 0)
     out = LayerNormPlugin._PRIM.bind(x, scale, bias, epsilon=epsilon)
-    return out, x_bdim
+    return out, 0
 
 
 batching.primitive_batchers[LayerNormPlugin._PRIM] = _layer_norm_batch_rule
